@@ -1,7 +1,7 @@
 (* C03 — spends, revisions, renewals need content-binding authorisation. The signature oracle [vt] holds
    the (key, sighash, signature) triples the real Ed25519 accepts; which content a sighash binds is C12. *)
 From Coq Require Import ZArith List Bool.
-From Sia Require Import Prim.Result Prim.Tok Policy.Model Ledger.Types Ledger.Mid Ledger.Validate Ledger.Apply Ledger.Proofs.
+From Sia Require Import Prim.Result Prim.Tok Policy.Model Ledger.Types Ledger.Mid Ledger.Validate Ledger.Apply Ledger.Proofs Ledger.Auth.
 Import ListNotations.
 Open Scope Z_scope.
 
@@ -29,3 +29,27 @@ Proof.
   intros net vt s m e rev Hv. destruct (revision_invariants net vt s m e rev Hv) as (cur & A & _ & _ & _ & _ & _ & _ & _ & _ & _ & B & C). eauto.
 Qed.
 Print Assumptions C03_revision_signed_by_current_keys.
+
+(* every attestation of an accepted transaction carries a key and is signed by it *)
+Theorem C03_attestations_signed : forall vt t, validate_attestations vt t = Ok tt ->
+  Forall (fun a => at_key_empty a = false /\ vlookup vt (at_pubkey a) (at_sighash a) (at_sig a) = true) (t2_att t).
+Proof. exact attestations_signed. Qed.
+Print Assumptions C03_attestations_signed.
+
+(* an accepted renewal keeps both keys, is signed by both keys of the contract being renewed, conserves its value, and
+   the new contract is itself well formed and signed by those keys *)
+Theorem C03_renewal_authorised : forall vt s fc rn, validate_renewal vt s fc rn = Ok tt ->
+  c_renter_key (rn_new rn) = c_renter_key fc /\ c_host_key (rn_new rn) = c_host_key fc /\
+  vlookup vt (c_renter_key fc) (rn_sighash rn) (rn_renter_sig rn) = true /\
+  vlookup vt (c_host_key fc) (rn_sighash rn) (rn_host_sig rn) = true /\
+  sco_value (rn_final_renter rn) + rn_renter_rollover rn + sco_value (rn_final_host rn) + rn_host_rollover rn
+    = sco_value (c_renter fc) + sco_value (c_host fc) /\
+  validate_contract vt s (rn_new rn) = Ok tt.
+Proof. exact renewal_authorised. Qed.
+Print Assumptions C03_renewal_authorised.
+
+(* the Foundation addresses change only in a transaction spending an output of the current management address *)
+Theorem C03_foundation_update_authorised : forall s t a, validate_foundation_update s t = Ok tt -> t2_new_foundation t = Some a ->
+  exists i, In i (t2_sci t) /\ sco_addr (sce_out (p_val (i2_parent i))) = s_found_mgmt s.
+Proof. exact foundation_update_authorised. Qed.
+Print Assumptions C03_foundation_update_authorised.
